@@ -277,6 +277,45 @@ Definition spec_sys (perdisk : bool) (l : list ksys) : front_res :=
 Definition sys_agrees (sysblock : text -> bool) (l : list ksys) : bool :=
   forallb (fun e => Bool.eqb (sysblock (dec (y_name e))) (y_whole e)) l.
 
+(* ------------------------------------------------ successive polls with the default nowrap=True *)
+(* what a poll reports per device: name and the documented fields as numbers *)
+Definition nic_row (i : knic) : text * list Z := (dec (n_name i), map snd (nt_nic (spec_nic i))).
+Definition disk_row (d : kdisk) : text * list Z := (dec (d_name d), map snd (nt_disk (spec_disk d))).
+Fixpoint all2 {A} (p : A -> A -> bool) (a b : list A) : bool :=
+  match a, b with
+  | [], [] => true
+  | x :: a', y :: b' => p x y && all2 p a' b'
+  | _, _ => false
+  end.
+Fixpoint row_get (k : text) (rows : list (text * list Z)) : option (list Z) :=
+  match rows with
+  | [] => None
+  | (k', v) :: r => if beqb k k' then Some v else row_get k r
+  end.
+(* no reported counter of a device listed in both [prev] and [cur] is lower in [cur] *)
+Definition no_decrease (prev cur : list (text * list Z)) : bool :=
+  forallb (fun kv => match row_get (fst kv) prev with
+                     | None => true
+                     | Some o => all2 Z.leb o (snd kv)
+                     end) cur.
+(* the hypothesis of the property for a history of polls: between two CONSECUTIVE polls no counter
+   decreases while its device is listed in both (a device may vanish and come back with any
+   value; a genuine wrap while listed is property C10's business) *)
+Fixpoint steady_consec (prev : list (text * list Z)) (polls : list (list (text * list Z))) : bool :=
+  match polls with
+  | [] => true
+  | p :: r => no_decrease prev p && steady_consec p r
+  end.
+(* the same against the last poll that listed anything at all -- what the code as written needs:
+   a poll that lists nothing returns before the cache is touched *)
+Fixpoint steady_cached (prev : list (text * list Z)) (polls : list (list (text * list Z))) : bool :=
+  match polls with
+  | [] => true
+  | p :: r => no_decrease prev p && steady_cached (match p with [] => prev | _ => p end) r
+  end.
+Definition nonempty_polls {A} (polls : list (list A)) : bool :=
+  forallb (fun p => match p with [] => false | _ => true end) polls.
+
 (* ------------------------------------------------ disk_usage *)
 (* property text: used = total - free-for-root, free = space available to unprivileged users,
    percent = used / (used + free) * 100  (0 when used + free = 0).
